@@ -411,10 +411,27 @@ def rule_B1(ctx, prog, label, only_funcs=None, rule='B1'):
                                            'unrolled family `%s` in %s: %s' % (fm.disc, fm.func.name, txt), {}, label))
         else:
             rr.ob(True, dict(function=fm.func.name, kind=fm.kind, discriminator=fm.disc, members=len(fm.members)))
+    used = set()
     for e in frozen:
         if e['key'] not in seen_frozen and (only_funcs is None or e['function'] in only_funcs):
             if e['function'] in prog.funcs or not e.get('optional_function'):
                 if e.get('configs') and not _cfg_match(prog.cfg, e['configs']):
+                    continue
+                # the discriminator text changed (e.g. `row[8*j + 0]` became `(row + 8*j)[0]`): accept the one discovered family of
+                # the same function, kind and size that no frozen entry claims, and check it
+                cands = [fm for fm in byfunc.get(e['function'], []) if fm.kind == e['kind'] and len(fm.members) == e['members'] and id(fm) not in used
+                         and ('%s|%s|%s' % (fm.func.name, fm.kind, fm.ndisc)) not in [k.rsplit('|#', 1)[0] for k in seen_frozen]]
+                if len(cands) == 1:
+                    fm = cands[0]
+                    used.add(id(fm))
+                    rr.instances += 1
+                    probs = [p_ for p_ in fm.check() if p_[0] not in e.get('deviant_members', [])]
+                    if probs:
+                        for (i, txt) in probs[:3]:
+                            rr.ob(False, None, Finding(rule, '%s|%s|member=%s' % (rule, e['key'], i), fm.anchor.loc, fm.func.name,
+                                                       'unrolled family `%s` in %s: %s' % (fm.disc, fm.func.name, txt), {}, label))
+                    else:
+                        rr.ob(True, dict(function=fm.func.name, kind=fm.kind, discriminator=fm.disc, members=len(fm.members), matched='by function, kind and size'))
                     continue
                 raise AnalysisBroken('B1: frozen family %s not found any more (anchor vanished)' % e['key'])
     return rr
